@@ -361,6 +361,13 @@ func (r *vfRec) vfStable() {
 	}
 }
 
+// vfGuard runs a call into go-zero and returns what it panicked with, if it did.
+func vfGuard(fn func()) (p any) {
+	defer func() { p = recover() }()
+	fn()
+	return nil
+}
+
 var (
 	vfMu     sync.Mutex
 	vfStores = map[string]*vfEtcd{}
@@ -397,7 +404,12 @@ func vfResolverHistory(c *kit.Case) {
 	steps = append(steps, fmt.Sprintf("(before Build) %d registrations", len(present)))
 	rec := &vfRec{sig: make(chan struct{}, 1)}
 	u, _ := url.Parse("discov://" + ep + "/svc")
-	rs, err := (&discovBuilder{}).Build(resolver.Target{URL: *u}, rec, resolver.BuildOptions{})
+	var rs resolver.Resolver
+	var err error
+	if p := vfGuard(func() { rs, err = (&discovBuilder{}).Build(resolver.Target{URL: *u}, rec, resolver.BuildOptions{}) }); p != nil {
+		c.Viol("C13/resolver-wb-panic/build", fmt.Sprintf("discovBuilder.Build panicked: %v", p), map[string]any{"steps": steps})
+		return
+	}
 	if err != nil {
 		panic("c13 whitebox: Build: " + err.Error())
 	}
@@ -412,7 +424,12 @@ func vfResolverHistory(c *kit.Case) {
 	}
 	defer syncSub.Close()
 	srec := &vfRec{sig: make(chan struct{}, 1)}
-	syncSub.AddListener(func() { srec.vfRecord(syncSub.Values()) })
+	syncSub.AddListener(func() {
+		var v []string
+		if p := vfGuard(func() { v = syncSub.Values() }); p == nil {
+			srec.vfRecord(v)
+		}
+	})
 	markerN, markerKey := 0, ""
 	over, upto := 0, 0
 	check := func(step string) bool {
